@@ -1,11 +1,45 @@
-//! replay <harness> <hex,hex,...>   — run a harness body natively on concrete values.
-//! exit 0: body completed (assertions held); exit 101: assertion failed / panic (reproduced);
-//! exit 3: the values violate an assumption of the harness (replay diverged).
+//! replay <harness> <hex,hex,...>   run a harness body natively on the concrete values of a counterexample.
+//!    exit 0: body completed (assertions held); exit 101: assertion failed / panic (reproduced);
+//!    exit 3: the values violate an assumption of the harness (replay diverged).
+//! replay --enum <harness> [max]     small-scope enumeration of a native-only bounded harness (all combinations of
+//!    small value domains); prints the number of cases; exit 101 on the first failing combination.
+use std::panic::{catch_unwind, AssertUnwindSafe};
 fn main() {
     let args: Vec<String> = std::env::args().collect();
     if args.len() < 2 {
         for (n, _) in vharness::registry() { println!("{}", n); }
+        for (n, _) in vharness::native_registry() { println!("native:{}", n); }
         return;
+    }
+    if args[1] == "--enum" {
+        let name = &args[2];
+        let max: u64 = if args.len() > 3 { args[3].parse().unwrap_or(2_000_000) } else { 2_000_000 };
+        for (n, f) in vharness::native_registry() {
+            if n == name {
+                std::panic::set_hook(Box::new(|_| {}));
+                let mut s = vharness::src::EnumSrc::new();
+                let (mut cases, mut rejected) = (0u64, 0u64);
+                loop {
+                    let r = catch_unwind(AssertUnwindSafe(|| f(&mut s)));
+                    match r {
+                        Ok(()) => cases += 1,
+                        Err(e) => {
+                            if e.downcast_ref::<vharness::src::Rejected>().is_some() { rejected += 1; }
+                            else {
+                                let msg = e.downcast_ref::<&str>().map(|x| x.to_string()).or(e.downcast_ref::<String>().cloned()).unwrap_or_default();
+                                println!("ENUM-FAILED harness={} case={} digits={:?} message={}", name, cases + rejected, s.digits, msg);
+                                std::process::exit(101);
+                            }
+                        }
+                    }
+                    if cases + rejected >= max || !s.step() { break; }
+                }
+                println!("ENUM-COMPLETED harness={} cases={} rejected_by_assumption={} exhausted={}", name, cases, rejected, cases + rejected < max);
+                return;
+            }
+        }
+        eprintln!("unknown native harness {}", name);
+        std::process::exit(2);
     }
     let vals: Vec<Vec<u8>> = if args.len() > 2 && !args[2].is_empty() {
         args[2].split(',').map(|h| {
